@@ -104,10 +104,13 @@ def make_base(name):
         p = np.array((LPOLY if cls == "Polygon" else QUAD)[::-1], float)
     elif tag == "xy":
         p = np.array(LPOLY if cls == "Polygon" else QUAD, float) + np.array([2.0, -3.0])
+    elif tag == "down":
+        # in the xy-plane (so distance_to_surface applies), listed clockwise: the stored normal is -z
+        p = np.array((LPOLY if cls == "Polygon" else QUAD)[::-1], float) + np.array([-1.0, 2.0])
     elif tag in ("neg", "tiny"):
         p = np.array(LPOLY if cls == "Polygon" else QUAD, float)
     p3 = np.hstack([p, np.zeros((len(p), 1))])
-    if tag != "xy":
+    if tag not in ("xy", "down"):
         p3 = p3 @ R.T + off
     if tag == "tiny":
         p3 = p3 * 1e-4
@@ -147,6 +150,8 @@ BASES = [
     "ConvexSpheropolygon/chiral",
     "ConvexSpheropolygon/lattice",
     "ConvexSpheropolygon/xy",
+    "ConvexPolygon/down",
+    "ConvexSpheropolygon/down",
 ]
 
 # C03 explores histories from these; C08 (single steps) additionally starts from every tiny base
